@@ -25,6 +25,25 @@ type c13Outer struct {
 	C  chan int         `valid:"exist"`
 }
 
+// botheq groups over kinds that == cannot compare
+type c13G struct {
+	S1 []string       `valid:"botheq=1"`
+	S2 []string       `valid:"botheq=1"`
+	M1 map[string]int `valid:"botheq=2"`
+	M2 map[string]int `valid:"botheq=2"`
+	F1 func()         `valid:"botheq=3"`
+	F2 func()         `valid:"botheq=3"`
+	E1 c13T           `valid:"botheq=4"`
+	E2 c13T           `valid:"botheq=4"`
+	I1 interface{}    `valid:"botheq=5"`
+	I2 interface{}    `valid:"botheq=5"`
+}
+
+// rules that read the whole string, for the length-boundary catalogue
+var longRules = []string{"json", "re='^a+$'", "re='^[0-9]+$'", "phone", "email", "idcard", "int", "float", "ints", "in=(a/b)", "include=(zz)",
+	"prefix=a", "suffix=a", "ip", "ipv4", "ipv6", "date", "datetime", "year", "unique", "to=1~3", "eq=3", "file", "dir"}
+var longLens = []int{63, 64, 65, 127, 128, 129, 255, 256, 257, 258, 400, 511, 512, 513}
+
 // rule text: grammar-aware mutations of well-formed rules, plus raw bytes
 var hostileBase = []string{"required", "exist", "either=1", "botheq=2", "to=1~3", "to=3~1", "oto=a~b", "ge=", "le=x", "gt=99999999999999999999", "lt=-0",
 		"eq=1.5", "noeq", "in=(a/b)", "in=)a(", "in=(", "in", "include=(x)", "include=()", "phone", "email|", "idcard|m", "year", "year2month=''",
@@ -65,6 +84,9 @@ func hostileValue(r *gal.Rng) (interface{}, string) {
 		{fullp, "ptr-ptr-struct"}, {[]c13Outer{{}, {P: full}}, "slice-of-outer"}, {map[string]interface{}{"a": nil, "b": 1, "c": "x"}, "map-iface"},
 		{map[string]string{"a": ""}, "map-str"}, {[]map[string]string{nil, {"a": "x"}}, "slice-of-maps-with-nil"}, {map[int]string{1: "x"}, "map-int-str"},
 		{func() {}, "func"}, {make(chan int), "chan"}, {[]int{}, "empty-ints"}, {[]string{"a", ""}, "strings"}, {struct{}{}, "empty-struct"},
+		{&c13G{S1: []string{"a"}, S2: []string{"a"}, M1: map[string]int{"a": 1}, M2: map[string]int{"a": 1}, F1: func() {}, F2: func() {}, E1: c13T{A: "x"}, E2: c13T{A: "x"}, I1: []int{1}, I2: []int{1}}, "groups-uncomparable-equal"},
+		{&c13G{S1: []string{"a"}, S2: []string{"b"}, M1: map[string]int{"a": 1}, M2: map[string]int{"a": 2}, E1: c13T{A: "x"}, E2: c13T{A: "y"}, I1: map[string]int{"a": 1}, I2: []int{1}}, "groups-uncomparable-differ"},
+		{map[string][]string{"a": {"x"}, "b": {"x"}}, "map-of-slices"},
 		{"http://h/p?a=%zz", "bad-escape-url"}, {"http://h/p?a=1&a=2&=3&b", "odd-url"}, {"?", "qmark"}, {"", "empty-string"}, {"http://h/p?a=%", "trunc-escape"},
 	}
 	x := vals[r.Intn(len(vals))]
@@ -90,6 +112,11 @@ func runC13(c *Ctx) error {
 			dir = append(dir, directed{e, rule})
 		}
 	}
+	for _, rule := range longRules {
+		for _, L := range longLens {
+			dir = append(dir, directed{"long", fmt.Sprintf("%s\x00%d", rule, L)})
+		}
+	}
 	for i := 0; i < n+len(dir); i++ {
 		v, vname := hostileValue(r)
 		entry := r.Pick([]string{"struct", "var", "map", "url"})
@@ -100,12 +127,22 @@ func runC13(c *Ctx) error {
 		}
 		if i < len(dir) {
 			entry, rules, nr = dir[i].entry, []string{dir[i].rule}, 1
-			switch entry {
-			case "var":
+			isLong := entry == "long"
+			if isLong { // a string of exactly L bytes through Var (alternating contents)
+				var L int
+				parts := strings.SplitN(dir[i].rule, "\x00", 2)
+				fmt.Sscan(parts[1], &L)
+				fill := []string{"a", "{", "7", "\"", "[1,", "中"}[(i+L)%6]
+				entry, rules = "var", []string{parts[0]}
+				v, vname = strings.Repeat(fill, L)[:L], fmt.Sprintf("long-%d", L)
+			}
+			switch {
+			case isLong:
+			case entry == "var":
 				v, vname = "abc", "string"
-			case "struct":
+			case entry == "struct":
 				v, vname = &c13T{A: "abc", B: 1}, "struct-A-abc"
-			case "map":
+			case entry == "map":
 				v, vname = map[string]string{"a": "abc"}, "map-a-abc"
 			default:
 				v, vname = "http://h/p?a=abc", "url-a-abc"
@@ -125,6 +162,9 @@ func runC13(c *Ctx) error {
 			call.VarRules = rules
 		default:
 			call.Rules = map[string]string{"a": strings.Join(rules, ","), "b": hostileRule(r), "": hostileRule(r), "k": hostileRule(r)}
+			if vname == "map-of-slices" {
+				call.Rules = map[string]string{"a": "botheq=1", "b": "botheq=1"}
+			}
 			if r.Chance(10) {
 				call.Rules = nil
 			}
